@@ -13,6 +13,8 @@ package main
 import (
 	"context"
 	"errors"
+	"sync"
+	"syscall"
 	"crypto/sha256"
 	"encoding/hex"
 	"fmt"
@@ -48,7 +50,14 @@ type scenario struct {
 	Cancelled bool     `json:"cancelled,omitempty"`
 	GC        string   `json:"gc,omitempty"` // all | none | mixed
 	Global    bool     `json:"global,omitempty"`
+	// fault injection at the backend (recording shim): the FailNth-th Remove fails with EPERM / EBUSY; with FailAlways every
+	// later Remove of that same path fails too (an entry that ordinary means cannot remove)
+	FailNth    int    `json:"fail_nth,omitempty"`
+	FailAlways bool   `json:"fail_always,omitempty"`
+	FailErr    string `json:"fail_err,omitempty"`
 }
+
+const foreignID = 4242 // owner given to everything outside the tree (and to some entries inside) when running as root
 
 var rmOps = []string{"Rm", "RemoveWithContext", "RemoveWithContextAndExclusionPatterns", "RemoveWithPrivileges"}
 var cleanOps = []string{"CleanDir", "CleanDirWithContext", "CleanDirWithContextAndExclusionPatterns"}
@@ -74,6 +83,31 @@ type snapEntry struct {
 	Perm   os.FileMode
 	Target string // l: canonical sandbox-relative target ("<outside-sandbox>" if it leaves the sandbox)
 	Size   int64
+	Uid    uint32
+	Gid    uint32
+	MTime  int64 // modification time (ns) as reported by Lstat
+}
+
+// core is what must stay the same for an entry that is kept: kind, content, link target, permission bits, size.
+func (e snapEntry) core() snapEntry {
+	e.Uid, e.Gid, e.MTime = 0, 0, 0
+	return e
+}
+
+// meta is the rest: ownership and modification time.
+func (e snapEntry) meta(withMTime bool) string {
+	if withMTime {
+		return fmt.Sprintf("%d:%d mtime=%d", e.Uid, e.Gid, e.MTime)
+	}
+	return fmt.Sprintf("%d:%d", e.Uid, e.Gid)
+}
+
+func withMeta(e snapEntry, fi os.FileInfo) snapEntry {
+	if st, ok := fi.Sys().(*syscall.Stat_t); ok {
+		e.Uid, e.Gid = st.Uid, st.Gid
+	}
+	e.MTime = fi.ModTime().UnixNano()
+	return e
 }
 
 func snapshot(sandbox string) (map[string]snapEntry, error) {
@@ -97,16 +131,16 @@ func snapshot(sandbox string) (map[string]snapEntry, error) {
 			if err != nil {
 				return err
 			}
-			out[rel] = snapEntry{Kind: "l", Data: t, Target: canonTarget(sandbox, p, t)}
+			out[rel] = withMeta(snapEntry{Kind: "l", Data: t, Target: canonTarget(sandbox, p, t), Perm: fi.Mode().Perm()}, fi)
 		case fi.IsDir():
-			out[rel] = snapEntry{Kind: "d", Perm: fi.Mode().Perm()}
+			out[rel] = withMeta(snapEntry{Kind: "d", Perm: fi.Mode().Perm()}, fi)
 		default:
 			bs, err := os.ReadFile(p)
 			if err != nil {
 				return err
 			}
 			s := sha256.Sum256(bs)
-			out[rel] = snapEntry{Kind: "f", Data: hex.EncodeToString(s[:]), Perm: fi.Mode().Perm(), Size: int64(len(bs))}
+			out[rel] = withMeta(snapEntry{Kind: "f", Data: hex.EncodeToString(s[:]), Perm: fi.Mode().Perm(), Size: int64(len(bs))}, fi)
 		}
 		return nil
 	})
@@ -134,7 +168,7 @@ func under(root, p string) bool { // p is root or below root (component-wise)
 
 // ---- building the sandbox ----
 
-func build(sandbox string, sc scenario) error {
+func build(sandbox string, sc scenario, old time.Time) error {
 	if err := os.MkdirAll(sandbox, 0o755); err != nil {
 		return err
 	}
@@ -169,12 +203,20 @@ func build(sandbox string, sc scenario) error {
 			}
 		}
 	}
-	old := time.Now().Add(-48 * time.Hour)
 	for _, e := range es {
 		p := filepath.Join(sandbox, e.Path)
 		if e.Kind == "f" && e.Old {
 			if err := os.Chtimes(p, old, old); err != nil {
 				return err
+			}
+		}
+	}
+	if os.Geteuid() == 0 {
+		for i, e := range es {
+			if !under(sc.Root, e.Path) || i%3 == 0 {
+				if err := os.Lchown(filepath.Join(sandbox, e.Path), foreignID, foreignID); err != nil {
+					return err
+				}
 			}
 		}
 	}
@@ -219,7 +261,8 @@ func execute(sc scenario) (*outcome, string, error) {
 		})
 		_ = os.RemoveAll(sandbox)
 	}()
-	if err := build(sandbox, sc); err != nil {
+	old := time.Now().Add(-48 * time.Hour).Truncate(time.Second)
+	if err := build(sandbox, sc, old); err != nil {
 		return nil, sandbox, err
 	}
 	before, err := snapshot(sandbox)
@@ -227,13 +270,37 @@ func execute(sc scenario) (*outcome, string, error) {
 		return nil, sandbox, err
 	}
 	// re-apply the old times: reading the files for the snapshot may have refreshed their access time
-	old := time.Now().Add(-48 * time.Hour)
 	for _, e := range sc.Entries {
 		if e.Kind == "f" && e.Old {
 			_ = os.Chtimes(filepath.Join(sandbox, e.Path), old, old)
 		}
 	}
-	sh := shim.New(filesystem.NewExtendedOsFs(), nil)
+	var hook shim.Hook
+	if sc.FailNth > 0 {
+		var mu sync.Mutex
+		n, stuck := 0, ""
+		errno := syscall.EPERM
+		if sc.FailErr == "EBUSY" {
+			errno = syscall.EBUSY
+		}
+		hook = func(op *shim.Op) error {
+			if op.Name != "Remove" {
+				return nil
+			}
+			mu.Lock()
+			defer mu.Unlock()
+			n++
+			if n == sc.FailNth {
+				stuck = op.Path
+				return &os.PathError{Op: "remove", Path: op.Path, Err: errno}
+			}
+			if sc.FailAlways && stuck != "" && op.Path == stuck {
+				return &os.PathError{Op: "remove", Path: op.Path, Err: errno}
+			}
+			return nil
+		}
+	}
+	sh := shim.New(filesystem.NewExtendedOsFs(), hook)
 	var fs filesystem.FS = filesystem.NewVirtualFileSystem(sh, filesystem.StandardFS, filesystem.IdentityPathConverterFunc)
 	if sc.Global {
 		fs = filesystem.GetGlobalFileSystem()
@@ -337,8 +404,15 @@ func oracle(r *h.Run, sc scenario, o *outcome, sandbox string) {
 		a, ok := o.After[p]
 		if !ok {
 			r.Fail("outside-deleted:"+cls, fmt.Sprintf("%s(%q) deleted %q, which is outside the tree", sc.Op, sc.Root, p), sc)
-		} else if a != b {
-			r.Fail("outside-modified:"+cls, fmt.Sprintf("%s(%q) modified %q, which is outside the tree (%v -> %v)", sc.Op, sc.Root, p, b, a), sc)
+		} else if a.core() != b.core() {
+			r.Fail("outside-modified:"+cls, fmt.Sprintf("%s(%q) modified %q, which is outside the tree (%v -> %v)", sc.Op, sc.Root, p, b.core(), a.core()), sc)
+		} else {
+			// ownership of everything outside; modification time too, except for the ancestors of the root handed in
+			// (removing the root legitimately updates its parent directory)
+			withMTime := !(under(p, sc.Root) && p != sc.Root)
+			if a.meta(withMTime) != b.meta(withMTime) {
+				r.Fail("outside-metadata-modified:"+cls, fmt.Sprintf("%s(%q) changed owner / modification time of %q, which is outside the tree (%s -> %s)", sc.Op, sc.Root, p, b.meta(withMTime), a.meta(withMTime)), sc)
+			}
 		}
 	}
 	for p := range o.After {
@@ -348,8 +422,8 @@ func oracle(r *h.Run, sc scenario, o *outcome, sandbox string) {
 	}
 	// inside the tree nothing may be modified either: an entry is deleted or left exactly as it was
 	for p, a := range o.After {
-		if b, ok := o.Before[p]; ok && under(sc.Root, p) && a != b {
-			r.Fail("inside-modified:"+cls, fmt.Sprintf("%s(%q) modified %q instead of deleting or keeping it (%v -> %v)", sc.Op, sc.Root, p, b, a), sc)
+		if b, ok := o.Before[p]; ok && under(sc.Root, p) && a.core() != b.core() {
+			r.Fail("inside-modified:"+cls, fmt.Sprintf("%s(%q) modified %q instead of deleting or keeping it (%v -> %v)", sc.Op, sc.Root, p, b.core(), a.core()), sc)
 		}
 	}
 	// 2. no mutating backend operation outside the tree or through a link
@@ -429,7 +503,7 @@ func oracle(r *h.Run, sc scenario, o *outcome, sandbox string) {
 				continue
 			}
 			a, ok := o.After[p]
-			if !ok || a != b {
+			if !ok || a.core() != b.core() {
 				r.Fail("excluded-entry-lost:"+cls, fmt.Sprintf("%s(%q, %q): %q matches an exclusion pattern but did not survive", sc.Op, sc.Root, pats, p), sc)
 				continue
 			}
@@ -560,7 +634,7 @@ func emitCase(r *h.Run, sc scenario, o *outcome) {
 		ts = append(ts, "("+in.path(k)+", "+t+")")
 		if a, ok := o.After[k]; !ok {
 			removed = append(removed, fmt.Sprintf("%d%%N", i))
-		} else if a != e {
+		} else if a.core() != e.core() {
 			same = false
 		}
 	}
@@ -638,7 +712,13 @@ func runScenario(r *h.Run, sc scenario, emit bool) {
 	}
 	r.Sample(map[string]any{"op": sc.Op, "root": sc.Root, "entries": len(sc.Entries), "links_in_tree": nl, "patterns": effectivePatterns(sc),
 		"cancelled": sc.Cancelled, "gc": sc.GC, "err": o.ErrText, "entries_removed": removed, "backend_ops": len(o.Log)})
-	if emit && !sc.Global {
+	if sc.FailNth > 0 {
+		r.Count("fault-injected(oracle only):" + cls)
+		if !o.ErrNil {
+			r.Count("fault-injected:error-reported")
+		}
+	}
+	if emit && !sc.Global && sc.FailNth == 0 {
 		emitCase(r, sc, o)
 	}
 }
@@ -713,6 +793,24 @@ func corpus() []scenario {
 			out = append(out, scenario{Entries: es, Root: "tree/sub/lnk", Op: "RemoveWithContext", Cancelled: true}) // a cancelled removal of a link removes nothing
 			out = append(out, scenario{Entries: es, Root: "tree/sub/lnk", Op: "RemoveWithContextAndExclusionPatterns", Patterns: []string{"lnk"}})
 			out = append(out, scenario{Entries: es, Root: "tree/sub", Op: "CleanDirWithContextAndExclusionPatterns", Patterns: []string{"b"}})
+		}
+	}
+	// a backend Remove that fails (EPERM / EBUSY), once or for good: the error paths, and for RemoveWithPrivileges the
+	// "take ownership, retry, force" escalation; everything outside the tree belongs to another user
+	fw := append(base(), d("tree"), d("tree/sub"), l("tree/sub/link", "outside", false), l("tree/tofile", "outside/precious.txt", true), l("tree/dangling", "nowhere", false),
+		f("tree/a", "a"), d("tree/sub/deep"), f("tree/sub/deep/x", "x"), l("tree/sub/deep/up", "tree", false))
+	for _, op := range append(append([]string{}, rmOps...), cleanOps...) {
+		for k := 1; k <= 8; k++ {
+			out = append(out, scenario{Entries: fw, Root: "tree", Op: op, FailNth: k, FailErr: []string{"EPERM", "EBUSY"}[k%2]})
+		}
+	}
+	for k := 1; k <= 8; k++ {
+		out = append(out, scenario{Entries: fw, Root: "tree", Op: "RemoveWithPrivileges", FailNth: k, FailAlways: true})
+	}
+	for _, root := range []string{"tree/sub/link", "tree/tofile", "tree/dangling", "tree/sub/deep/up", "tree/a", "tree/sub"} {
+		for _, always := range []bool{false, true} {
+			out = append(out, scenario{Entries: fw, Root: root, Op: "RemoveWithPrivileges", FailNth: 1, FailAlways: always})
+			out = append(out, scenario{Entries: fw, Root: root, Op: "Rm", FailNth: 1, FailAlways: always})
 		}
 	}
 	// mutual loop, link chain, links only, empty tree, missing root, file root
@@ -899,6 +997,11 @@ func gen(r *h.Run, thoroughShape bool) scenario {
 	}
 	if rng.Intn(15) == 0 && !sc.Cancelled {
 		sc.Global = true
+	}
+	if !sc.Global && opClass(sc.Op) != "gc" && rng.Intn(6) == 0 {
+		sc.FailNth = 1 + rng.Intn(6)
+		sc.FailAlways = rng.Intn(3) == 0
+		sc.FailErr = []string{"EPERM", "EBUSY"}[rng.Intn(2)]
 	}
 	return sc
 }
